@@ -330,7 +330,14 @@ func TestVerifC13H(t *testing.T) {
 				continue
 			}
 			if vh.MyShard(i) {
-				vh.RunH(r, "TestVerifC13H", c13Spec(c13Params{st, bl[0], bl[1]}, depth))
+				d := depth
+				if vres.Thorough() && st == "weighted_round_robin" && bl[0] {
+					// (the smooth weighted rotation has by far the most control states: one level
+					// less keeps the search of this one specification - a single process - at a
+					// quarter of an hour instead of three quarters)
+					d--
+				}
+				vh.RunH(r, "TestVerifC13H", c13Spec(c13Params{st, bl[0], bl[1]}, d))
 			}
 			i++
 		}
